@@ -21,7 +21,7 @@ package zapslog
 
 // A record is handled if and only if the core enables the mapped level.
 //@ func (*exp/zapslog.Handler).Enabled
-//@   props C18
+//@   props C18 C09
 //@   flags nopanic
 //@   requires h != nil && h.core != nil
 //@   modifies nothing
@@ -68,7 +68,7 @@ package zapslog
 // derivation: WithGroup / WithAttrs never write the receiver or anything it shares
 
 //@ func (*exp/zapslog.Handler).appendGroups
-//@   props C18
+//@   props C18 C09
 //@   flags nopanic
 //@   requires h != nil
 //@   modifies fields(zapcore.Field)
@@ -102,7 +102,7 @@ package zapslog
 // wrapped core's With(fields) and drops the pending groups exactly when they were emitted; the
 // receiver is not written.
 //@ func (*exp/zapslog.Handler).WithAttrs
-//@   props C18 C07
+//@   props C18 C07 C09
 //@   flags nopanic
 //@   requires h != nil && h.core != nil
 //@   track CV = call exp/zapslog.convertAttrToField
@@ -215,7 +215,7 @@ package zapslog
 // The per-attribute function of Handle: converts the attribute, emits the pending groups once
 // before the first field that is not skipped, appends the field, and asks for the next attribute.
 //@ func (*exp/zapslog.Handler).Handle$1
-//@   props C18
+//@   props C18 C09
 //@   flags nopanic
 //@   requires *h != nil
 //@   track CV = call exp/zapslog.convertAttrToField
@@ -233,7 +233,7 @@ package zapslog
 // stack trace is attached exactly from the configured slog level upward, skipping 3 frames plus
 // the configured skip.
 //@ func (*exp/zapslog.Handler).Handle
-//@   props C18
+//@   props C18 C09
 //@   flags nopanic propagates-panics
 //@   requires h != nil && h.core != nil && 0 <= h.callerSkip && h.callerSkip <= 1 << 20
 //@   track CK = invoke zapcore.Core.Check
